@@ -228,6 +228,12 @@ func msgHash(env *codecEnv, m proto.Message) uint64 {
 	return rt.Hash(env.name, string(m.ProtoReflect().Descriptor().FullName()), string(b))
 }
 
+// lastEncoded: the slice the previous ProtoToJSON call returned, and its content at that time
+var (
+	lastEncoded     []byte
+	lastEncodedCopy string
+)
+
 // checkRoundTrip is the C01 oracle (and the shared execution for C08).
 func checkCodecCase(c *rt.C, prop string, env *codecEnv, m *dynamicpb.Message, class string) {
 	full := string(m.Descriptor().FullName())
@@ -253,6 +259,15 @@ func checkCodecCase(c *rt.C, prop string, env *codecEnv, m *dynamicpb.Message, c
 		}
 		return
 	}
+	// what an earlier call returned stays what it was: the previous document is compared with the copy taken then
+	if lastEncoded != nil && string(lastEncoded) != lastEncodedCopy {
+		d := det()
+		d["earlier_output_then"] = rt.Clip(lastEncodedCopy, 2000)
+		d["earlier_output_now"] = rt.Clip(string(lastEncoded), 2000)
+		c.Violate("output-overwritten-by-later-call", fmt.Sprintf("the document an earlier ProtoToJSON call returned changed when %s was encoded: it was %s, it is now %s", full, rt.Clip(lastEncodedCopy, 200), rt.Clip(string(lastEncoded), 200)), d)
+	}
+	lastEncoded, lastEncodedCopy = b, string(b)
+	c.Event("earlier_outputs_rechecked")
 	if prop == "C08" {
 		checkWireFormat(c, env, m, b, det)
 		return
